@@ -68,6 +68,7 @@ def run_case(case, rec):
             rec.violation(sig + "/initial-mask/" + s, "%s: %d active %s points before training, expected %d"
                           % (label, c0[s], s, aut.active(s)))
     observed_steps = []
+    exp_steps_l = []
     if case["mode"] == "direct":
         for h in R["history"]:
             if h["kind"] != "trigger":
@@ -76,29 +77,35 @@ def run_case(case, rec):
                 continue
             i = h["i"]
             exp_step = aut.tick(i)
+            if exp_step:
+                exp_steps_l.append((h.get("leg", 0), i))
             did = h["after"]["J"] - h["before"]["J"]
             rec.count("hook_events", len(h["events"]))
             if did not in (0, 1) or (did == 1) != (len(h["events"]) == 1):
                 rec.violation(sig + "/hook-and-counter-disagree", "%s: iteration %d: step counter moved by %d, hook reported %d steps"
                               % (label, i, did, len(h["events"])))
             if did:
-                observed_steps.append(i)
+                observed_steps.append((h.get("leg", 0), i))
             ca = counts(h["after"])
             for s in streams:
                 if ca[s] > totals[s]:
                     rec.violation(sig + "/capacity/active-exceeds-store/" + s, "%s: %d active %s points in a store of %d"
                                   % (label, ca[s], s, totals[s]))
-        exp_steps = aut.steps_at
+        exp_steps = exp_steps_l
         final = R["final"]
     else:
-        ev = R["history"][0]["events"]
-        rec.count("hook_events", len(ev))
         rec.count("e2e_schedules")
-        observed_steps = sorted(int(e["i"]) for e in ev)
-        for i in range(rarsim.N_ITERS):
-            aut.tick(i)
-        exp_steps = aut.steps_at
+        for h in R["history"]:
+            ev = h["events"]
+            rec.count("hook_events", len(ev))
+            observed_steps += sorted((h["leg"], int(e["i"])) for e in ev)
+            for i in range(rarsim.N_ITERS):
+                if aut.tick(i):
+                    exp_steps_l.append((h["leg"], i))
+        exp_steps = exp_steps_l
         final = R["final"]
+    if case.get("legs", 1) > 1:
+        rec.count("resumed_histories")
     rec.count("steps_observed", len(observed_steps))
     if exp_steps:
         rec.nontrivial(tuple(sorted((k, v) for k, v in case.items() if k not in ("cost",))))
@@ -110,8 +117,8 @@ def run_case(case, rec):
                    final_J=final["J"])
     if observed_steps != exp_steps:
         kind_ = "steps-at-wrong-iterations"
-        if exp_steps and observed_steps == [i + case["every"] for i in exp_steps if i + case["every"] < rarsim.N_ITERS][:len(observed_steps)] \
-                and case["every"] > 1:
+        if exp_steps and case.get("legs", 1) == 1 and case["every"] > 1 and \
+                observed_steps == [(l, i + case["every"]) for l, i in exp_steps if i + case["every"] < rarsim.N_ITERS][:len(observed_steps)]:
             kind_ = "first-step-late-by-one-period"
         elif len(observed_steps) > len(exp_steps) and observed_steps[:len(exp_steps)] == exp_steps:
             kind_ = "step-without-room"
